@@ -257,8 +257,36 @@ fn p_mock_points<C: Mk>(toks: &[&str]) -> String {
     }
 }
 
+/// one character (given as its code point) as a 1x1 pattern: a documented character must be accepted with its documented
+/// colour; any other character is either rejected ("invalid char" panic) or is a lower-case spelling of a documented one
+fn p_mock_char<C: Mk>(toks: &[&str]) -> String {
+    let ch = match char::from_u32(u(toks[0])) { Some(c) => c, None => return "BAD-CASE".into() };
+    let row = ch.to_string();
+    let doc = doc_char_to_raw::<C>(ch);
+    match guarded(|| MockDisplay::<C>::from_pattern(&[row.as_str()])) {
+        Err(k) => {
+            if doc.is_some() || ch == ' ' { return format!("FAIL documented character {:?} rejected: {}", ch, k); }
+            if k != "badchar" { return format!("FAIL {:?}: panic {}", ch, k); }
+            "OK rejected".into()
+        }
+        Ok(d) => {
+            let got = d.get_pixel(Point::zero()).map(|c| c.tag());
+            if ch == ' ' { return if got.is_none() && d.affected_area().is_zero_sized() { "OK blank".into() } else { "FAIL ' ' sets a cell".into() }; }
+            let up = ch.to_ascii_uppercase();
+            let want = doc_char_to_raw::<C>(up);
+            if want.is_none() { return format!("FAIL undocumented character {:?} accepted as {:?}", ch, got); }
+            if got != want { return format!("FAIL {:?} gives {:?}, documented {:?}", ch, got, want); }
+            let s = format!("{:?}", d);
+            let first = s.lines().nth(1).and_then(|l| l.chars().next());
+            if first != Some(up) { return format!("FAIL {:?} printed back as {:?}", ch, first); }
+            "OK accepted".into()
+        }
+    }
+}
+
 pub fn run(suite: &str, a: &[&str]) -> Option<String> {
     Some(match suite {
+        "p_mock_char" => dispatch!(a[0], p_mock_char, &a[1..]),
         "mock_points" => dispatch!(a[0], mock_points, &a[1..]),
         "p_mock_points" => dispatch!(a[0], p_mock_points, &a[1..]),
         "mock_hist" => dispatch!(a[0], mock_hist, &a[1..]),
